@@ -12,7 +12,7 @@ From Coq Require Import List ZArith NArith Bool String Permutation.
 From Flocq Require Import IEEE754.BinarySingleNaN.
 From Verif Require Import common.Sexp common.Int64 gen.GenFuncTable
   c03.JV c03.FloatText c03.Core c03.Ops c03.Natives c03.Dispatch c03.Spec c03.Wf c03.TableProofs
-  c03.NoPanic3 c03.DispatchTotal c03.Denote c03.CompareDoc c03.OpsDoc c03.NativesDoc c03.NativesDoc2 c03.NativesDoc3 c03.ContainsDoc c03.IndicesDoc c03.StringsDoc c03.PathDoc c03.FlattenDoc c03.SortDoc c03.RangeDoc c03.TextDoc c03.SimpleDoc c03.SliceDoc c03.RepIndep c03.Run.
+  c03.NoPanic3 c03.DispatchTotal c03.Denote c03.CompareDoc c03.OpsDoc c03.NativesDoc c03.NativesDoc2 c03.NativesDoc3 c03.ContainsDoc c03.IndicesDoc c03.StringsDoc c03.PathDoc c03.FlattenDoc c03.SortDoc c03.RangeDoc c03.TextDoc c03.SimpleDoc c03.SliceDoc c03.RepIndep c03.BsearchDoc c03.EncodeDoc c03.AnyDoc c03.LiteralDoc c03.RangeAnyDoc c03.FloatIntDoc c03.SliceAllDoc c03.IndexAllDoc c03.GetpathAllDoc c03.RepIndep2 c03.FlattenAllDoc c03.GetpathFullDoc c03.MeetsListed c03.Run.
 Import ListNotations.
 Open Scope Z_scope.
 
@@ -333,6 +333,160 @@ Theorem C03_tojson_rep_refuted :
 Proof. exact tojson_rep_refuted. Qed.
 Print Assumptions C03_tojson_rep_refuted.
 
+(* bsearch/1, infinite/0, nan/0.  On ANY array sort.Search (the model's fuel always suffices) returns r with the
+   element before r below the target and the element at r not below it, and the answer is r when that element
+   is Compare-equal to the target, -1-r otherwise; on every array whose elements below the target come first (all
+   sorted arrays) this is Spec.s_bsearch: the index of the first equal element, or -1 - insertion point. *)
+Theorem C03_bsearch_meets_doc : forall pf, (forall z, big_to_float pf z = Z2F z) ->
+  (forall vs t, exists r, 0 <= r <= llen vs
+     /\ (r = 0 \/ geq_at pf vs t (r - 1) = false) /\ (r = llen vs \/ geq_at pf vs t r = true)
+     /\ f_bsearch pf (JArr vs) t =
+        Val (jint (match nth_error vs (Z.to_nat r) with
+                   | Some x => if compare pf x t =? 0 then r else - r - 1
+                   | None => - r - 1
+                   end)))
+  /\ (forall v t, wf v = true -> wf t = true -> ragrees pf (f_bsearch pf v t) (s_bsearch (denote pf v) (denote pf t)))
+  /\ agrees pf (Val (jflt (finf false))) (SVal (MFlt (finf false))) /\ agrees pf (Val (jflt fnan)) (SVal (MFlt fnan)).
+Proof.
+  exact (fun pf H => conj (f_bsearch_any pf H) (conj (f_bsearch_doc pf H) (infinite_nan_doc pf))).
+Qed.
+Print Assumptions C03_bsearch_meets_doc.
+
+(* @html @uri @urid @base64 @base64d: each is tostring followed by a function of the text; on byte strings that
+   function is the documented one (five-entity table; RFC 3986 percent-encoding of everything but the unreserved
+   characters; every %XX decoded, a malformed escape an error; RFC 4648 base64); decoding undoes encoding. *)
+Theorem C03_formats_meet_doc : forall pf ff,
+  (forall v,
+       f_tohtml ff v = then_text ff v (fun s => vstr (replace_bytes html_tbl s))
+    /\ f_touri ff v = then_text ff v (fun s => vstr (uri_model s))
+    /\ f_tourid ff v = then_text ff v (fun s => match unescape s with Some t => vstr t | None => Err (EFunc0Wrap EExt) end)
+    /\ f_tobase64 ff v = then_text ff v (fun s => vstr (b64_encode s)))
+  /\ (forall s, is_bytes s = true ->
+       agrees pf (f_tohtml ff (JStr s)) (SVal (MStr (s_html s)))
+    /\ agrees pf (f_touri ff (JStr s)) (SVal (MStr (s_uri s)))
+    /\ agrees pf (f_tourid ff (JStr s)) (match s_urid s with Some t => SVal (MStr t) | None => SErr end)
+    /\ agrees pf (f_tobase64 ff (JStr s)) (SVal (MStr (s_b64 s)))
+    /\ (forall t, s_b64d s = Some t -> agrees pf (f_tobase64d ff (JStr s)) (SVal (MStr t))))
+  /\ (forall s, is_bytes s = true ->
+       (do u <- f_touri ff (JStr s); f_tourid ff u) = Val (JStr s)
+    /\ (do u <- f_tobase64 ff (JStr s); f_tobase64d ff u) = Val (JStr s)).
+Proof.
+  exact (fun pf ff => conj
+    (fun v => match formats_are_tostring_then ff v with
+              | conj a (conj b (conj c (conj d _))) => conj a (conj b (conj c d)) end)
+    (conj (formats_meet_doc pf ff)
+          (fun s B => conj (f_tourid_touri ff s B) (f_tobase64d_tobase64 pf ff s B)))).
+Qed.
+Print Assumptions C03_formats_meet_doc.
+
+(* ascii_downcase / ascii_upcase on ARBITRARY byte strings (each well-formed UTF-8 sequence copied with its ASCII
+   letters mapped, every other byte replaced by U+FFFD -- the manual is silent about invalid UTF-8, this is the
+   code's behaviour stated per character), implode on ARBITRARY arrays (non-scalar-values give U+FFFD), and
+   length / abs / unary minus on every number INCLUDING json.Number literals (the Go code edits the text; given the
+   sign symmetry of ParseFloat on texts that start with a digit this is the documented numeric function). *)
+Theorem C03_natives_unrestricted : forall pf, (forall z, big_to_float pf z = Z2F z) ->
+  forall v, wf v = true ->
+     agrees pf (f_ascii_downcase v) (s_ascii_any false (denote pf v))
+  /\ agrees pf (f_ascii_upcase v) (s_ascii_any true (denote pf v))
+  /\ agrees pf (f_implode pf v) (s_implode_any (denote pf v))
+  /\ (pf_sign pf ->
+        agrees pf (f_length v) (s_length (denote pf v))
+     /\ agrees pf (f_abs v) (s_abs (denote pf v))
+     /\ agrees pf (op_negate v) (s_negate (denote pf v))).
+Proof.
+  exact (fun pf H v W => conj (f_ascii_downcase_any pf v W) (conj (f_ascii_upcase_any pf H v W) (conj (f_implode_any pf H v W)
+    (fun PS => conj (f_length_all pf PS v W) (conj (f_abs_all pf PS v W) (op_negate_all pf PS v W)))))).
+Qed.
+Print Assumptions C03_natives_unrestricted.
+
+(* _range/3 on ARBITRARY numbers (any size, any representation, floats and fraction literals included): the first
+   [fuel] outputs of the documented progression from, from+by, ... (+ and the order being the documented ones of
+   Spec.v), and whether it goes on; a non-number argument is an error. *)
+Theorem C03_range_any : forall pf, (forall z, big_to_float pf z = Z2F z) ->
+  forall fuel a b c, wf a = true -> wf b = true -> wf c = true ->
+    (is_mnum (denote pf a) && is_mnum (denote pf b) && is_mnum (denote pf c) = true ->
+       exists l cut, f_range pf fuel [a; b; c] = Val (l, cut)
+                     /\ map (denote pf) l = fst (mprog fuel (denote pf a) (denote pf b) (denote pf c))
+                     /\ cut = snd (mprog fuel (denote pf a) (denote pf b) (denote pf c)))
+    /\ (is_mnum (denote pf a) && is_mnum (denote pf b) && is_mnum (denote pf c) = false -> f_range pf fuel [a; b; c] = Err EFunc0Type).
+Proof. exact f_range_any. Qed.
+Print Assumptions C03_range_any.
+
+(* .[s:e] on EVERY input and bound type (arrays; arbitrary byte strings sliced by characters; null; bounds null,
+   integers in any representation, doubles / fraction literals: start truncated, end rounded up), .[k] for ALL key
+   types (null / boolean: error; strings; numbers incl. floats, NaN, infinities, negative; arrays = sub-array search;
+   {"start","end"} objects = slice) on every input incl. strings, and getpath along any path (Spec.s_getpath has no
+   entry for array / slice-object keys inside a path: nothing claimed there).  [sized]: containers and strings
+   shorter than 2^63, which every Go slice and string is. *)
+Theorem C03_slice_index_getpath_all : forall pf, (forall z, big_to_float pf z = Z2F z) ->
+  (forall f, in_int (float_to_int f))
+  /\ (forall v e s, wf v = true -> wf e = true -> wf s = true -> sized v = true ->
+        agrees pf (f_slice pf v e s) (s_slice_any (denote pf v) (denote pf e) (denote pf s)))
+  /\ (forall v x, wf v = true -> wf x = true -> sized v = true ->
+        ragrees pf (f_index2 pf v x) (s_index2 (denote pf v) (denote pf x)))
+  /\ (forall v p, wf v = true -> wf p = true -> sized v = true ->
+        ragrees pf (f_getpath pf v p) (match denote pf p with MArr path => s_getpath path (denote pf v) | _ => Some SErr end)).
+Proof.
+  exact (fun pf H => conj float_to_int_in_int (conj (f_slice_all pf H) (conj (f_index2_all pf H) (f_getpath_all pf H)))).
+Qed.
+Print Assumptions C03_slice_index_getpath_all.
+
+(* flatten/0 on EVERY well-formed input, without the nesting bound of C03_paths_flatten_range_meet_doc: the Go depth
+   counter (a float64 starting at -1, minus 1 per level) stays a negative double for ever -- -inf, or finite with real
+   value <= -1 (Flocq Bminus_correct, monotone rounding, -2 representable) -- so it never reaches 0. *)
+Theorem C03_flatten0_all : forall pf v, wf v = true ->
+  (forall d, negf d -> negf (fsub d f_one) /\ feq d (fzero false) = false)
+  /\ negf (Z2F (-1))
+  /\ agrees pf (f_flatten pf v []) (match s_flatten (denote pf v) None with Some r => r | None => SErr end).
+Proof.
+  exact (fun pf v W => conj (fun d N => conj (negf_step d N) (negf_nonzero d N)) (conj negf_start (f_flatten0_all pf v W))).
+Qed.
+Print Assumptions C03_flatten0_all.
+
+(* getpath/1 along paths with EVERY key type, array keys and slice objects included: the fold of .[k]
+   (Spec.s_getpath_any); every intermediate value is again well-formed and shorter than 2^63. *)
+Theorem C03_getpath_full : forall pf, (forall z, big_to_float pf z = Z2F z) ->
+  forall v p, wf v = true -> wf p = true -> sized v = true ->
+    ragrees pf (f_getpath pf v p) (match denote pf p with MArr path => s_getpath_any path (denote pf v) | _ => Some SErr end).
+Proof. exact f_getpath_full. Qed.
+Print Assumptions C03_getpath_full.
+
+(* rep_independent for the natives whose meets_doc theorem lost its sub-domain restriction *)
+Theorem C03_natives_rep4 : forall pf, (forall z, big_to_float pf z = Z2F z) ->
+  rep1 pf f_ascii_downcase /\ rep1 pf f_ascii_upcase /\ rep1 pf (f_implode pf)
+  /\ (pf_sign pf -> rep1 pf f_length /\ rep1 pf f_abs /\ rep1 pf op_negate)
+  /\ (forall v e s v' e' s', wf v = true -> wf e = true -> wf s = true -> wf v' = true -> wf e' = true -> wf s' = true ->
+        sized v = true -> sized v' = true -> denote pf v = denote pf v' -> denote pf e = denote pf e' -> denote pf s = denote pf s' ->
+        oeq pf (f_slice pf v e s) (f_slice pf v' e' s'))
+  /\ (forall v x v' x', wf v = true -> wf x = true -> wf v' = true -> wf x' = true -> sized v = true -> sized v' = true ->
+        denote pf v = denote pf v' -> denote pf x = denote pf x' ->
+        orep pf (f_index2 pf v x) (f_index2 pf v' x') (s_index2 (denote pf v) (denote pf x))
+        /\ orep pf (f_bsearch pf v x) (f_bsearch pf v' x') (s_bsearch (denote pf v) (denote pf x))).
+Proof. exact natives_rep4. Qed.
+Print Assumptions C03_natives_rep4.
+
+(* meets_doc as ONE statement over the list of natives proved on all well-formed inputs: whenever Spec.v has an
+   entry for the call, the dispatcher (= internalFuncs[name].callback(v, args)) returns a value denoting the
+   documented one, or an error where an error is documented.  (C03_meets_doc_full is this statement for every
+   name; the names not listed are the ones whose theorem still has a sub-domain restriction.)  The second list
+   needs the sign symmetry of ParseFloat (json.Number literals: the code edits the text); the third list uses that
+   containers and strings are shorter than 2^63 ([sized]; true of every Go value). *)
+Theorem C03_meets_doc_listed : forall pf ff l1 l2 l3 jd lp, (forall z, big_to_float pf z = Z2F z) ->
+  forall name,
+    In name
+      ["_add"; "_subtract"; "_multiply"; "_divide"; "_modulo"; "_equal"; "_notequal"; "_less"; "_greater"; "_lesseq"; "_greatereq"; "_alternative"; "_plus"; "keys"; "has"; "reverse"; "type"; "explode"; "utf8bytelength"; "startswith"; "endswith"; "ltrimstr"; "rtrimstr"; "trimstr"; "min"; "max"; "_min_by"; "_max_by"; "add"; "tonumber"; "transpose"; "contains"; "inside"; "indices"; "index"; "rindex"; "toboolean"; "isnan"; "isinfinite"; "isfinite"; "isnormal"; "error"; "halt"; "halt_error"; "floor"; "ceil"; "trunc"; "round"; "rint"; "nearbyint"; "fabs"; "sqrt"; "fmax"; "fmin"; "infinite"; "nan"; "bsearch"; "_tohtml"; "_touri"; "_tourid"; "_tobase64"; "_tobase64d"; "ascii_downcase"; "ascii_upcase"; "implode"; "flatten"]%string
+    \/ (pf_sign pf /\ In name ["length"; "abs"; "_negate"]%string)
+    \/ In name ["_slice"; "_index"; "getpath"]%string ->
+  forall fuel v args s, wf v = true -> forallb wf args = true -> sized v = true -> forallb sized args = true ->
+    spec_call pf name v args = Some s ->
+    match call_native pf ff l1 l2 l3 jd lp fuel name v args, s with
+    | Some (Val (ROne x)), SVal m => denote pf x = m
+    | Some (Err _), SErr => True
+    | _, _ => False
+    end.
+Proof. exact meets_doc_listed_in. Qed.
+Print Assumptions C03_meets_doc_listed.
+
 (* ---- the full statements, for the record (partial: see docs/C03.md) ---------------------------- *)
 (* every native with an entry in Spec.v agrees with it on all well-formed inputs *)
 Definition C03_meets_doc_full : Prop :=
@@ -385,4 +539,19 @@ Example C03_nonvacuous_rep :
   /\ mv_eqb (d (JNum (NInt 7))) (d (JNum (NLit (codes "7")))) = true
   /\ mv_eqb (d (JNum (NFlt (finf false)))) (d (JNum (NLit (codes "1e1000")))) = true
   /\ mv_eqb (d (JNum (NFlt (F_of_ZE 3 (-1) false)))) (d (JNum (NLit (codes "1.5")))) = true.
+Proof. vm_compute. repeat split; reflexivity. Qed.
+(* the literal cases of length / abs / unary minus are reached: "-1.50" and "-0" are well-formed literals *)
+Example C03_nonvacuous_literals :
+  wf (JNum (NLit (codes "-1.50"))) = true
+  /\ f_length (JNum (NLit (codes "-1.50"))) = Val (JNum (NLit (codes "1.50")))
+  /\ op_negate (JNum (NLit (codes "0"))) = Val (JNum (NLit (codes "-0")))
+  /\ mv_eqb (denote parse_float_text (JNum (NLit (codes "-0")))) (MInt 0) = true.
+Proof. vm_compute. repeat split; reflexivity. Qed.
+(* slices of strings and fractional bounds are reached, and an invalid byte is one character that is kept *)
+Example C03_nonvacuous_slices :
+  let call name v args := x_call 40%nat name v args in
+  call "_slice"%string JNull [JStr [97; 255; 98; 195; 169]%N; jflt (F_of_ZE 5 (-1) false); jflt (F_of_ZE 1 (-1) false)] = Some (Val (ROne (JStr [97; 255; 98]%N)))
+  /\ call "_slice"%string JNull [JArr [jint 1; jint 2; jint 3]; JNull; jflt (F_of_ZE (-3) (-1) false)] = Some (Val (ROne (JArr [jint 3])))
+  /\ call "_index"%string JNull [JArr [jint 1; jint 2; jint 3]; jflt (F_of_ZE (-3) (-1) false)] = Some (Val (ROne (jint 3)))
+  /\ call "_index"%string JNull [JArr [jint 1; jint 2; jint 1; jint 2]; JArr [jint 1; jint 2]] = Some (Val (ROne (JArr [jint 0; jint 2]))).
 Proof. vm_compute. repeat split; reflexivity. Qed.
